@@ -96,7 +96,16 @@ theorem adjust_boundary_spec (ty : IntTy) (p : Policy) (hp : p.storeSpecial = tr
   · exact adjustBoundary_spec_lower p hp opn out e hq nb r' h
   · exact adjustBoundary_spec_upper p hp opn out e hq nb r' h
 
-/-- non-vacuity, LOWER: `-100 + -100` on `int8_t` rounding down returns `V_GT_MINUS_INFINITY |
+/-- non-vacuity of the hypothesis: the outcome of `-100 + -100` on `int8_t`, rounding down, satisfies the C11
+clauses w.r.t. the exact value −200 (by the C11 lemmas `add_tri`, `tri_ok`) … -/
+example : OKQ (tyOfBits 8 true) cop (dirOf .lower)
+    (PPLV.Checked.add (tyOfBits 8 true) cop 85 (-100) (-100) .down) (.fin (((-100 + -100 : Int)) : Rat)) :=
+  PPLV.Checked.ok_toQ (e := .fin (-100 + -100))
+    (PPLV.Checked.tri_ok (wf_cop (by decide)) (show _ ∧ _ by decide)
+      (PPLV.Checked.add_tri (wf_cop (by decide)) (tyOK_of 8 true (by decide)).larger rfl .down (show _ ∧ _ by decide)
+        (finite_cop.mpr (by decide)) (show _ ∧ _ by decide)))
+
+/-- … and LOWER: `-100 + -100` on `int8_t` rounding down returns `V_GT_MINUS_INFINITY |
 V_UNREPRESENTABLE` with the destination untouched; `adjust_boundary` makes the bound SPECIAL -/
 example : chk (tyOfBits 8 true) .add .lower 85 (-100) (-100) = (85, PPLV.Checked.Result.V_GT_MINUS_INFINITY.orUnrep) ∧
     adjustBoundary Policy.integer .lower { raw := 85 } false PPLV.Checked.Result.V_GT_MINUS_INFINITY.orUnrep
@@ -142,6 +151,8 @@ theorem int_boundary_refines {ty : IntTy} {p : Policy} (ok : TyOK ty) (hp : p.st
 /-- the native types of the library satisfy the standing assumption -/
 theorem int_types_ok (bits : Nat) (signed : Bool) (h : 1 ≤ bits) : TyOK (tyOfBits bits signed) := tyOK_of bits signed h
 
+example : TyOK (tyOfBits 8 true) ∧ TyOK (tyOfBits 64 false) ∧ (⟨-128, false, false⟩ : NB).WF (tyOfBits 8 true) :=
+  ⟨int_types_ok 8 true (by decide), int_types_ok 64 false (by decide), show _ ∧ _ by decide⟩
 example : nbDiv (tyOfBits 8 true) Policy.integer .lower .lower { raw := -128 } .upper { raw := -1 }
     = some { raw := 127 } := by decide
 example : nbMul (tyOfBits 8 true) Policy.integer .upper .lower { raw := -128 } .lower { raw := -1 }
